@@ -7063,3 +7063,9 @@ mod tests {
 		do_test_htlc_accountable_from_u8(Some(0), Some(false));
 	}
 }
+
+// verification hook (DESIGN.md of /verif): harnesses live outside the repository and are compiled only under cfg(kani) / cfg(ldk_verif)
+#[cfg(any(kani, ldk_verif))]
+#[allow(missing_docs, dead_code, unused_imports, unused_variables)]
+#[path = "/verif/hooks/msgs.rs"]
+pub mod verif_contracts;
